@@ -402,6 +402,7 @@ func typedRewrites(fset *token.FileSet, f *ast.File, info *types.Info, ed *edito
 		p := fset.Position(n.Pos())
 		return fmt.Sprintf("%s:%d", relFile(root, fn), p.Line)
 	}
+	keepImport := map[string]string{} // import name -> a symbol of it, kept alive after its calls were rerouted
 	skipRecv := map[*ast.UnaryExpr]bool{}
 	skipSend := map[*ast.SendStmt]bool{}
 	// recvElem: element type of the channel being received from, as written in this file.
@@ -568,6 +569,32 @@ func typedRewrites(fset *token.FileSet, f *ast.File, info *types.Info, ed *edito
 				visit(x.Body)
 				return false
 			case *ast.CallExpr:
+				if se, ok := x.Fun.(*ast.SelectorExpr); ok {
+					if fn, ok := info.Uses[se.Sel].(*types.Func); ok && fn.Pkg() != nil {
+						if sig, _ := fn.Type().(*types.Signature); sig != nil && sig.Recv() == nil {
+							switch fn.Pkg().Path() {
+							case "time":
+								switch fn.Name() {
+								case "Now", "Since", "Until", "Sleep", "After":
+									report.SyncSites = append(report.SyncSites, where(x)+" time."+fn.Name())
+									ed.replace(off(se.Pos()), off(se.Sel.Pos()), rtImportName+".")
+									keepImport[text(se.X)] = "time.Now"
+								case "NewTimer", "NewTicker", "AfterFunc", "Tick":
+									report.ChanOps = append(report.ChanOps, where(x)+" time."+fn.Name()+" (real time: not simulated)")
+								}
+							case "math/rand":
+								switch fn.Name() {
+								case "Intn", "Int", "Int31", "Int31n", "Int63", "Int63n", "Uint32", "Uint64", "Float32", "Float64", "NormFloat64", "ExpFloat64", "Perm", "Shuffle", "Read", "Seed":
+									report.SyncSites = append(report.SyncSites, where(x)+" rand."+fn.Name())
+									ed.replace(off(se.Pos()), off(se.Sel.Pos()), rtImportName+".Rand().")
+									keepImport[text(se.X)] = "rand.Intn"
+								}
+							case "crypto/rand", "math/rand/v2":
+								report.ChanOps = append(report.ChanOps, where(x)+" "+fn.Pkg().Path()+"."+fn.Name()+" (randomness outside the seam)")
+							}
+						}
+					}
+				}
 				name, sel := syncMethod(x)
 				switch name {
 				case "Lock", "RLock":
@@ -741,6 +768,10 @@ func typedRewrites(fset *token.FileSet, f *ast.File, info *types.Info, ed *edito
 		})
 	}
 	visit(f)
+	// the rewritten file may no longer use an import it declares: keep it referenced
+	for name, sym := range keepImport {
+		ed.insert(len(ed.src), "\nvar _ = "+name+sym[strings.Index(sym, "."):]+"\n")
+	}
 }
 
 func funcName(fd *ast.FuncDecl) string {
@@ -1108,10 +1139,12 @@ package zzverifrt
 
 import (
 	"fmt"
+	"math/rand"
 	"reflect"
 	"sort"
 	"sync"
 	"sync/atomic"
+	"time"
 	"unsafe"
 )
 
@@ -1279,6 +1312,7 @@ func Recv2(ch interface{}) (interface{}, bool) {
 		return v.Interface(), ok
 	}
 	for {
+		FireTimers()
 		if rv.Cap() == 0 {
 			if v, slot := pendTake(rv.Pointer()); slot >= 0 {
 				raceAcquire(unsafe.Pointer(&pendTab[slot]))
@@ -1296,6 +1330,112 @@ func Recv2(ch interface{}) (interface{}, bool) {
 }
 
 func RecvWait(ch interface{}) { Recv2(ch) }
+
+// ---- simulated clock and deterministic math/rand ----------------------------------------
+// The library's calls of time.Now / Since / Until / Sleep / After and of the package-level
+// math/rand functions are routed here. Under the harness time is the simulator's: it
+// advances with the executed statements, jumps forward when the harness injects a clock
+// fault, and jumps to the next timer when every client is blocked (discrete-event time).
+
+// Clock returns the simulated time elapsed in nanoseconds; nil means real time.
+var Clock func() int64
+
+// ClockAdvance moves the simulated clock forward (Sleep).
+var ClockAdvance func(ns int64)
+
+var simEpoch = time.Date(2026, 1, 1, 0, 0, 0, 0, time.UTC)
+
+func Now() time.Time {
+	if c := Clock; c != nil {
+		return simEpoch.Add(time.Duration(c()))
+	}
+	return time.Now()
+}
+
+func Since(t time.Time) time.Duration { return Now().Sub(t) }
+func Until(t time.Time) time.Duration { return t.Sub(Now()) }
+
+func Sleep(d time.Duration) {
+	if Clock == nil || ClockAdvance == nil {
+		time.Sleep(d)
+		return
+	}
+	if d > 0 {
+		ClockAdvance(int64(d))
+	}
+	Y(-5)
+}
+
+type simTimer struct {
+	at   int64
+	ch   chan time.Time
+	used bool
+}
+
+var timerTab [64]simTimer
+
+//go:norace
+func timerAdd(at int64, ch chan time.Time) bool {
+	for i := range timerTab {
+		if !timerTab[i].used {
+			timerTab[i] = simTimer{at: at, ch: ch, used: true}
+			return true
+		}
+	}
+	return false
+}
+
+// FireTimers delivers every timer whose deadline has passed; it returns the earliest
+// pending deadline (0 if none).
+func FireTimers() int64 {
+	if Clock == nil {
+		return 0
+	}
+	now := Clock()
+	var next int64
+	for i := range timerTab {
+		t := &timerTab[i]
+		if !t.used {
+			continue
+		}
+		if t.at <= now {
+			select {
+			case t.ch <- simEpoch.Add(time.Duration(t.at)):
+			default:
+			}
+			t.used = false
+			continue
+		}
+		if next == 0 || t.at < next {
+			next = t.at
+		}
+	}
+	return next
+}
+
+//go:norace
+func timerReset() { timerTab = [64]simTimer{} }
+
+// After replaces time.After.
+func After(d time.Duration) <-chan time.Time {
+	if Clock == nil {
+		return time.After(d)
+	}
+	ch := make(chan time.Time, 1)
+	if !timerAdd(Clock()+int64(d), ch) {
+		return time.After(d)
+	}
+	FireTimers()
+	return ch
+}
+
+var simRand = rand.New(rand.NewSource(1))
+
+// Rand replaces the package-level math/rand source: one deterministic stream per run.
+func Rand() *rand.Rand { return simRand }
+
+// RandSeed is called by the harness at the start of every run.
+func RandSeed(seed int64) { simRand = rand.New(rand.NewSource(seed)) }
 
 // ---- deterministic sync.Pool -------------------------------------------------------
 // sync.Pool hands out "some" object: which one depends on the P the goroutine runs on and
@@ -1500,6 +1640,7 @@ func ResetAll() {
 	wgReset()
 	poolReset()
 	pendReset()
+	timerReset()
 	for _, f := range resets {
 		f()
 	}
